@@ -19,7 +19,7 @@ TRUSTED = vcheck.STD_TRUSTED + [
 HEADER = """From Coq Require Import List ZArith NArith Bool.
 From Coq.Strings Require Import Byte.
 Import ListNotations.
-From BWPlanner Require Import Terms Rows Clause Store Fetch Plan PatternSpec Current Corr.
+From BWPlanner Require Import Terms Rows Clause Store Fetch Plan PatternSpec Current Domain Corr.
 Open Scope N_scope.
 """
 
@@ -203,10 +203,10 @@ def evaluate(ctx, name, cases, env, shard=1500):
         m = re.search(r"V\s*=\s*(.*?)\s*:\s*list", vcheck.norm(o))
         if not m:
             raise vcheck.Broken("could not find verdicts in Coq output", o[-2000:])
-        trip = re.findall(r"\(\s*(\d+),\s*(\d+),\s*(\d+),\s*(\d+)\s*\)", m.group(1))
+        trip = re.findall(r"\(\s*(\d+),\s*(\d+),\s*(\d+),\s*(\d+),\s*(\d+)\s*\)", m.group(1))
         if len(trip) != len(part):
             raise vcheck.Broken("verdict count mismatch (%d for %d cases)" % (len(trip), len(part)), o[-2000:])
-        out += [(int(a), int(b), int(c), int(d)) for a, b, c, d in trip]
+        out += [(int(a), int(b), int(c), int(d), int(f)) for a, b, c, d, f in trip]
     return out
 
 
@@ -279,7 +279,7 @@ def static_classes(case):
 
 def classify(case, verdict):
     """None when the implementation meets the specification on this case; otherwise (finding id | None, explanation)"""
-    a, b, n, mask = verdict
+    a, b, n, mask = verdict[:4]
     if b == 2:
         return None
     st = static_classes(case)
@@ -344,6 +344,13 @@ def run_family(ctx, prop, gen_args, describe):
         cl = classify(r, v)
         if cl is None:
             continue
+        if v[4] == 1:
+            # inside D3 the theorem C03_select_is_solutions_partial says model = specification; the model agrees with the
+            # implementation on this case, so a deviation here contradicts the theorem's reading of the case
+            nviol += 1
+            if nviol <= 5:
+                ctx.violation({"kind": "deviation-inside-D3", "query": r["query"], "graph_texts": r["graph_texts"], "observed": r["result"]})
+            continue
         fid, why = cl
         if fid == "combination":
             excused[fid] = excused.get(fid, 0) + 1
@@ -386,6 +393,8 @@ def run_family(ctx, prop, gen_args, describe):
         "outcomes": {k: sum(1 for r in rows if r["result"]["kind"] == k) for k in sorted(set(r["result"]["kind"] for r in rows))},
         "empty_results": empty, "clauses": {str(n): sum(1 for r in cases if len(r["clauses"] or []) == n) for n in range(1, 6)},
         "meets_spec": sum(1 for v in verd if v[1] == 2), "deviations_by_finding": excused,
+        "inside_D3": sum(1 for v in verd if v[4] == 1),
+        "inside_D3_with_rows": sum(1 for r, v in zip(cases, verd) if v[4] == 1 and r["result"].get("rows")),
         "max_rows": max([len(r["result"].get("rows") or []) for r in rows] + [0]),
     }
     if rows and (errs > 0.3 * len(rows)):
